@@ -53,11 +53,12 @@ class Report:
         known = load_known()
         # inventory check: a rule that matched fewer sites than confirmed by hand is an analysis error
         short = [(r, n, self.count(r)) for r, n in self.min_counts.items() if self.count(r) < n]
-        if short:
+        failing = [o for o in self.obligations if not o["ok"]]
+        if short and not failing:
+            # (a rule that stops early at a violation legitimately evaluates fewer instances: violations are reported first)
             for r, n, c in short:
                 print("ANALYSIS-ERROR: property=%s rule %s evaluated %d instances, frozen inventory requires >= %d" % (self.pid, r, c, n))
             return 2
-        failing = [o for o in self.obligations if not o["ok"]]
         viol, kf = [], []
         for o in failing:
             k = o["key"]
